@@ -858,9 +858,16 @@ func TestVerif_C23_History(t *testing.T) {
 		cfg.DisableLedgerLRUCache = c23R(t, "lru", 0, 9) != 0
 		cfg.VerifiedTranscationsCacheSize = 2000
 		cfg.TxPoolSize = 1000 // OpenLedger sizes the verified-txn cache to at least TxPoolSize
+		// No background tracker commits while the history runs: reads from this test would race with the commit
+		// goroutine on the shared-cache in-memory sqlite ("database table is locked"). Nothing is committable with
+		// a lookback longer than the history; the database path is exercised by an explicit, awaited flush at the end.
+		cfg.MaxAcctLookback = 100
 		t0 := time.Now()
 		l := newSimpleLedgerWithConsensusVersion(tt, gen, cv, cfg, simpleLedgerLogger(quiet))
 		defer l.Close()
+		l.trackers.mu.Lock()
+		l.trackers.lastFlushTime = time.Now().Add(24 * time.Hour)
+		l.trackers.mu.Unlock()
 		proto := config.Consensus[cv]
 		progs, ok := progCache[proto.LogicSigVersion]
 		if !ok {
